@@ -120,6 +120,20 @@ fn scenario<C: MlsConfig>(rng: &mut Rng, mk: Mk<C>, out: &mut Out) {
             }
             // key package consumed on the first write; a second join with the same Welcome then fails
             let before = w.members[j].h.kp.inner.key_packages().len();
+            // every other joiner's key-package store fails the first delete: the write fails, the retry must delete it
+            let flaky = (j + out.cases as usize) % 2 == 0;
+            if flaky {
+                w.members[j].h.fault.lock().unwrap().counted_prefixes = vec!["kp.delete".to_string()];
+                w.fault_arm(j, vec![1]);
+                let (r0, _) = w.with_group(j, |g| g.write_to_storage());
+                let mid = w.members[j].h.kp.inner.key_packages().len();
+                if r0.ok() || mid != before {
+                    out.fails.push(format!("joiner m{j}: a failing key-package delete did not fail the write ({}), or the package vanished anyway ({before} -> {mid})", r0.s()));
+                }
+                w.members[j].h.fault.lock().unwrap().counted_prefixes.clear();
+                w.fault_arm(j, vec![]);
+                out.cover.insert("flaky-kp-delete".into());
+            }
             let (r, _) = w.with_group(j, |g| g.write_to_storage());
             let after = w.members[j].h.kp.inner.key_packages().len();
             if !r.ok() || after + 1 != before {
